@@ -30,6 +30,10 @@ ValidMap(map)    == Cardinality(map) >= 2
 Unmapped(lastUnmapped, hop) == (lastUnmapped + hop) % NumCh
 Remap(map, u) == IF u \in map THEN u ELSE Nth(map, u % Cardinality(map))
 
+\* the same relation in a form that is cheap to *check*: ch is the data channel for unmapped channel u
+\* (RemapAgree below: RemapIs(map, u, ch) <=> ch = Remap(map, u))
+RemapIs(map, u, ch) == IF u \in map THEN ch = u ELSE ch \in map /\ Rank(map, ch) = u % Cardinality(map)
+
 \* closed form: unmapped channel / data channel of the i-th connection event (i = 0 is the first)
 UnmappedAt(hop, i)      == (((i % NumCh) + 1) * hop) % NumCh
 ChannelAt(map, hop, i)  == Remap(map, UnmappedAt(hop, i))
@@ -119,6 +123,7 @@ FullIdentity == [][(n' > n /\ cmap' = AllCh) => Event(n' - n, last')]_vars
 ClosedForm   == n >= 0 => last = UnmappedAt(chop, n)
 Periodic     == (n >= 0 /\ (n + 1) % NumCh = 0) => last = 0
 TableForm    == [][n' > n => Event(n' - n, ChannelAt(cmap', chop, n'))]_vars
+RemapAgree   == (cmap # {} /\ (n <= 0 \/ n = 20)) => \A u \in AllCh, c \in AllCh : RemapIs(cmap, u, c) <=> (c = Remap(cmap, u))
 \* a full map visits every channel exactly once per round (hop increment and 37 are coprime)
 FullRound    == \A h \in 5 .. 16 : {ChannelAt(AllCh, h, i) : i \in 0 .. 36} = AllCh
 \* invalid parameters are never in force
@@ -127,7 +132,7 @@ NeverInvalid == chop # 0 => Valid(cmap, chop)
 (* ------------------------------ model checking instance --------------------------- *)
 MCMaps    == {AllCh, {}, {36}, {0, 36}, {1, 2, 3}, 0 .. 18, {c \in AllCh : c % 2 = 0}, {c \in AllCh : c % 3 = 1}, 9 .. 11}
              \cup {AllCh \ {a} : a \in AllCh} \cup {{a, (a + 9) % 37} : a \in {0, 3, 7, 11, 19, 27, 28, 30, 35, 36}}
-MCQMaps   == {AllCh, {}, {36}, {0, 36}, {1, 2, 3}, 0 .. 18, {c \in AllCh : c % 3 = 1}, AllCh \ {0}, AllCh \ {17}, AllCh \ {36}, AllCh \ {8, 9}}
+MCQMaps   == {AllCh, {36}, {0, 36}, 0 .. 18, {c \in AllCh : c % 3 = 1}, AllCh \ {0}, AllCh \ {8, 36}}
 MCUMaps   == {AllCh, {5}, {0, 36}, {c \in AllCh : c % 2 = 1}}
 MCHops    == {0, 5, 7, 16, 17}
 MCSteps   == {1, 2, 65530}
